@@ -96,6 +96,8 @@ def _kw(op):
         kw["categories"] = op["categories"]
     if "index" in op:
         kw["index"] = op["index"]
+    if op.get("row_filter"):
+        kw["row_filter"] = True
     return kw
 
 
@@ -105,6 +107,8 @@ def run_op(pf, op, shared=None):
     threads have finished, so that results that alias storage reused by later calls are seen).
     `shared`: for part-file writers {"fmd","frames","paths","compression"}."""
     k = op["op"]
+    if k == "seq":                   # several operations one after the other in ONE thread (the later ones meet what the earlier cached)
+        return [run_op(pf, o, shared) for o in op["ops"]]
     if k == "to_pandas":
         return pf.to_pandas(**_kw(op))
     if k == "slice":
@@ -198,6 +202,7 @@ SCRATCH_PREFIXES = ("dtypes/",)     # per-call output attribute: values are over
 OPAQUE = {}          # type name -> a path it was met at (objects the fingerprint cannot look into)
 TRUSTED_TYPES = {"_lru_cache_wrapper": "functools.lru_cache: documented thread-safe, value a function of the key",
                  "Logger": "logging.Logger: thread-safe by documentation",
+                 "_local": "threading.local: per-thread storage, not shared between threads by construction",
                  "LocalFileSystem": "fsspec filesystem object: used for open() only, not inspected",
                  "ModuleSpec": "import machinery", "SourceFileLoader": "import machinery", "ExtensionFileLoader": "import machinery",
                  "_SpecialForm": "typing", "ABCMeta": "class object"}
@@ -216,6 +221,8 @@ def _leaf(v, path=None):
         return "type:" + v.__name__
     if isinstance(v, types.ModuleType):
         return "mod:" + v.__name__
+    if type(v) is _Probe:
+        return "probe:%s" % (v.value(),)
     if hasattr(v, "so_far") and hasattr(v, "tell"):       # cencoding.NumpyIO: position AND content are state
         try:
             return "nio@%d:%s" % (v.tell(), sha(bytes(v.so_far()))[:12])
@@ -346,7 +353,7 @@ def _is_state(v):
     if v is None or isinstance(v, (bool, int, float, complex, str, bytes, type, types.ModuleType, types.FunctionType,
                                    types.BuiltinFunctionType, types.MethodType, staticmethod, classmethod, property)):
         return False
-    if type(v).__name__ in ("cython_function_or_method", "_lru_cache_wrapper", "Pattern", "Version", "Logger", "_SpecialForm",
+    if type(v).__name__ in ("cython_function_or_method", "_lru_cache_wrapper", "Pattern", "Version", "Logger", "_SpecialForm", "_local",
                             "ModuleSpec", "SourceFileLoader", "ExtensionFileLoader", "ABCMeta", "dtype", "method_descriptor",
                             "_Feature", "_abc_data",
                             "getset_descriptor", "member_descriptor", "wrapper_descriptor"):
@@ -395,7 +402,36 @@ def _module_roots():
                 continue
             if _is_state(cv):
                 out["cell:%s/%s.%s" % (mname, qual, f.__code__.co_freevars[i])] = cv
+    out.update(process_roots())
     return out
+
+
+class _Probe:
+    """process-global interpreter state that is not an object one can hold (working directory, environment, locale): its
+    current value is taken whenever the fingerprint / signature is"""
+    __slots__ = ("name", "fn")
+
+    def __init__(self, name, fn):
+        self.name, self.fn = name, fn
+
+    def value(self):
+        try:
+            return self.fn()
+        except Exception as e:      # noqa
+            return "?%s" % type(e).__name__
+
+
+def process_roots():
+    """State of the PROCESS outside the package that package code could change and that every thread sees: the warnings filters
+    (warnings.catch_warnings / simplefilter save, change and restore a process-wide list), the working directory, the environment,
+    the locale, numpy's print / error settings are per thread or context and are not included"""
+    import warnings
+    import locale
+    # (catch_warnings REBINDS warnings.filters to a copy: the list object held at one time says nothing - probe the module attribute)
+    return {"process:warnings/filters": _Probe("filters", lambda: "%d:%s" % (len(warnings.filters), sha(repr(warnings.filters))[:12])),
+            "process:os/cwd": _Probe("cwd", os.getcwd),
+            "process:os/environ": _Probe("environ", lambda: sha(repr(sorted(os.environ.items())))[:12]),
+            "process:locale": _Probe("locale", lambda: repr(locale.setlocale(locale.LC_ALL)))}
 
 
 def inventory_coverage(inv):
@@ -479,7 +515,7 @@ def inventory_coverage(inv):
             m, rest = path[6:].split("/", 1)
             if rest not in static.get(("func_attr", m), ()):
                 dynamic_only.append(path)
-        elif path.startswith("cell:"):
+        elif path.startswith("cell:") or path.startswith("process:"):
             pass
         else:
             m, n_ = path.split("/", 1)
@@ -608,6 +644,8 @@ class _Vol:
     def sig(self):
         o = self.o
         try:
+            if type(o) is _Probe:
+                return o.value()
             if hasattr(o, "so_far"):
                 return (o.tell(), hash(bytes(o.so_far())))
             if hasattr(o, "tell"):
@@ -620,11 +658,11 @@ class _Vol:
 
 
 def _volatile(v):
-    if isinstance(v, bytearray):
+    if isinstance(v, bytearray) or type(v) is _Probe:
         return True
     if hasattr(v, "tell") and (hasattr(v, "read") or hasattr(v, "so_far")):
         return True
-    return type(v).__name__ == "ndarray" and v.nbytes <= 4096 and v.dtype != object
+    return type(v).__name__ == "ndarray" and v.nbytes <= 16384 and v.dtype != object
 
 
 def _pkg_instance(v):
@@ -1152,7 +1190,7 @@ def stress_run(pf, op_lists, rng, shared=None, switch=1e-6, deadline_s=None):
 # datasets (as data: the replay rebuilds them from the spec)
 # ---------------------------------------------------------------------------------------------
 
-ALL_COLS = ["i", "f", "s", "c", "t", "o"]
+ALL_COLS = ["i", "f", "s", "c", "t", "o", "b"]
 
 
 def build_frame(spec):
@@ -1176,6 +1214,8 @@ def build_frame(spec):
         a = pd.array(rs.randint(-50, 50, n), dtype="Int64")
         a[rs.rand(n) < 0.2] = pd.NA
         cols["o"] = a
+    if "b" in want:                 # booleans: bit-packed pages (their own decode path and scratch arrays)
+        cols["b"] = rs.rand(n) < 0.4
     if spec["kind"] == "hive":
         cols["p"] = np.arange(n) % spec.get("nparts", 2)
     return pd.DataFrame(cols)
@@ -1524,7 +1564,7 @@ def codec_stream(seed, n=120):
     h = hashlib.sha256()
     bad = 0
     for it in range(n):
-        kind = it % 5
+        kind = it % 6
         if kind == 0:                                   # varint round trip
             xs = [rng.randrange(0, 1 << rng.choice([7, 14, 21, 35, 56])) for _ in range(20)]
             o = NumpyIO(np.zeros(400, dtype=np.uint8))
@@ -1565,6 +1605,18 @@ def codec_stream(seed, n=120):
             back = speedups.unpack_byte_array(np.frombuffer(bytes(packed), dtype=np.uint8).copy(), len(strs), True)
             bad += list(back) != list(strs)
             h.update(bytes(packed) + repr(list(back) == list(strs)).encode())
+        elif kind == 5:                                 # widths 9..24 (C11: impl = spec for 0 < w <= 24), 4-byte items
+            w = rng.choice([9, 10, 12, 13, 16, 17, 20, 23, 24])
+            cnt = 8 * rng.randrange(1, 10)
+            vals = np.array([rng.randrange(0, 1 << w) for _ in range(cnt)], dtype=np.int32)
+            o = NumpyIO(np.zeros(cnt * 4 + 32, dtype=np.uint8))
+            cencoding.encode_rle_bp(vals, w, o, 0)
+            b = bytes(o.so_far())
+            src = NumpyIO(np.frombuffer(b + b"\x00" * 16, dtype=np.uint8).copy())
+            out = np.zeros(cnt, dtype=np.int32)
+            cencoding.read_rle_bit_packed_hybrid(src, w, len(b), NumpyIO(out.view(np.uint8)), 4)
+            bad += not bool((out == vals).all())
+            h.update(b + out.tobytes() + repr(bool((out == vals).all())).encode())
         else:                                           # boolean bit packing (read_bitpacked1 / write_bitpacked1; not an inverse pair: digest only)
             cnt = 8 * rng.randrange(1, 20)
             bits = np.array([rng.randrange(2) for _ in range(cnt)], dtype=np.uint8)
